@@ -8,7 +8,8 @@
     end-of-build summary accounts for every pending step under exactly one cause, with counts that
     add up to the total." *)
 From Coq Require Import List NArith Bool.
-From SV Require Import lib.Bytes gen.GenPending model.Pending proofs.PendingProofs.
+From SV Require Import lib.Bytes lib.SqlExpr model.PendingTypes gen.GenPending model.Pending
+  proofs.PendingGenSpec proofs.PendingProofs proofs.PendingSound.
 Import ListNotations.
 Open Scope N_scope.
 
@@ -157,6 +158,82 @@ Theorem C19_attributed_kinds_are_root_kinds :
 Proof. exact attributed_root_kinds. Qed.
 
 (* ---------------------------------------------------------------------------------------- *)
+(* "The report tells the truth": the WHERE clauses of pending.py are translated (sqlexpr) into   *)
+(* gen/GenPending.v and evaluated by the model; these theorems say what they must mean.          *)
+(* ---------------------------------------------------------------------------------------- *)
+
+(* _INSERT_PEND_STEP selects PENDING, above the threshold, attached; _SELECT_NTOTAL (the total the
+   counts add up to) counts the same rows; `unsafe` is the negated safety disjunct of dispatch. *)
+Theorem C19_universe_clause :
+  forall sn s,
+    in_U sn s = (s_state s =? SS_PENDING) && (sn_threshold sn <? s_ineed s) && negb (s_detached s)
+    /\ in_ntotal sn s = in_U sn s
+    /\ s_unsafe s = negb (s_safe s || (s_has_hash s && s_safe_nh s)).
+Proof. intros sn s. split; [apply in_U_spec|]. split; [apply ntotal_is_U|apply s_unsafe_spec]. Qed.
+
+Theorem C19_ntotal_is_universe :
+  forall sn, length (filter (in_ntotal sn) (sn_steps sn)) = length (U sn).
+Proof. exact ntotal_is_universe. Qed.
+
+(* _INSERT_PEND_FILE_BLOCK versus the dispatch test UNAVAILABLE_INPUT_WHERE (both translated):
+   a listed input is refused by dispatch or is an unbuilt dynamic input of a deferred step, and
+   every input dispatch refuses is listed. *)
+Theorem C19_file_block_clause :
+  forall state det dyn deferred unsafe,
+    (sholds (fb_env_raw state det dyn deferred unsafe) gen_file_block_where = true ->
+       unavailable_input state det dyn = true
+       \/ (deferred = true /\ dyn = true /\ state <> FS_CONFIRMED /\ state <> FS_BUILT))
+    /\ (unavailable_input state det dyn = true ->
+        sholds (fb_env_raw state det dyn deferred unsafe) gen_file_block_where = true).
+Proof. intros. split; [apply file_block_sound|apply file_block_complete]. Qed.
+
+(* The UNION ALL of _INSERT_PEND_BLOCKER as translated arm by arm is the relation the comments of
+   pending.py describe (hand-written cands_spec), for every step of U. *)
+Theorem C19_blocker_arms_are_generated :
+  forall sn u, In u (U sn) -> cands sn u = cands_spec sn u.
+Proof. exact cands_is_spec. Qed.
+
+(* The full second half: the cause recorded for a pending step is real.  cause_real says, per kind:
+   FILE      the file is an input of the step that dispatch refuses (or an unbuilt dynamic input of a
+             deferred step) and no producer of it is in U or FAILED;
+   RESOURCE  the step requires `units` of the named resource and fewer (or none) are available;
+   FAILED    the source is a FAILED step that produces such an input or is the nearest chain-broken
+             creator ancestor of the (unsafe) step;
+   DEFERRED  the step is deferred and dispatch refuses none of its inputs;
+   OTHER     the nearest chain-broken ancestor of the unsafe step is neither in U nor FAILED;
+   BLOCK_STEP the source is in U and produces such an input / is that ancestor;
+   RUNNABLE  the step satisfies the dispatch conditions (PENDING, needed, attached, not deferred, no
+             input refused by UNAVAILABLE_INPUT_WHERE, every resource requirement covered, no
+             chain-broken ancestor). *)
+Definition C19_report_truth_full : Prop :=
+  forall sn u, In u (U sn) -> cause_real sn u (primary sn u).
+Theorem C19_report_truth_full_holds : C19_report_truth_full.
+Proof. exact primary_cause_real. Qed.
+
+(* ... and so is the root every attributed step is counted under (a root kind, the recorded cause of
+   a step of U); a step is in the "seem runnable" bucket only under a root that is dispatchable. *)
+Theorem C19_attributed_root_is_real :
+  forall sn i root, In (i, root) (attributed sn) ->
+    In (c_kind root) root_kinds /\ exists v, In v (U sn) /\ primary sn v = root /\ cause_real sn v root.
+Proof. exact attributed_root_real. Qed.
+
+Theorem C19_runnable_means_dispatchable :
+  forall sn i root, In (i, root) (attributed sn) -> c_kind root = K_ROOT_RUNNABLE ->
+    exists v, In v (U sn) /\ s_id v = c_src root /\ dispatchable sn v.
+Proof. exact runnable_root_dispatchable. Qed.
+
+(* The bucket queries: _bucket counts the attributed rows of the kind it is called with, the cyclic
+   bucket the steps absent from pend_attributed, and _analyze_pending fills failed / cyclic /
+   deferred / other / runnable from ROOT_FAILED / the residue / ROOT_DEFERRED / ROOT_OTHER /
+   ROOT_RUNNABLE. *)
+Theorem C19_bucket_clauses :
+  (forall sn k, fst (bucket sn k) = count_kind k (attributed sn))
+  /\ (forall sn, cyclic_ids sn = filter (fun u => negb (memN u (map fst (attributed sn)))) (U_ids sn))
+  /\ map snd gen_summary_buckets
+     = [Some K_ROOT_FAILED; None; Some K_ROOT_DEFERRED; Some K_ROOT_OTHER; Some K_ROOT_RUNNABLE].
+Proof. split; [exact bucket_count_spec|]. split; [exact cyclic_ids_spec|apply summary_buckets_spec]. Qed.
+
+(* ---------------------------------------------------------------------------------------- *)
 (* Non-vacuity                                                                               *)
 (* ---------------------------------------------------------------------------------------- *)
 
@@ -195,6 +272,15 @@ Proof.
   - unfold wf_snap. cbn. repeat constructor; cbn; intuition discriminate.
   - vm_compute. repeat split; reflexivity.
 Qed.
+
+(* the clauses have no gap on the sweep the harness uses to look for counterexamples, and the
+   example graph's causes: step 10 blocked by the missing file 20, step 16 by resource "s". *)
+Example C19_example_causes :
+  fb_gap_complete = [] /\ fb_gap_sound = [] /\ cands_disagree ex_snap = [] /\
+  map (fun u => (s_id u, c_kind (primary ex_snap u))) (U ex_snap)
+  = [(10, K_ROOT_FILE); (11, K_BLOCK_STEP); (12, K_BLOCK_STEP); (13, K_BLOCK_STEP);
+     (14, K_BLOCK_STEP); (15, K_BLOCK_STEP); (16, K_ROOT_RESOURCE); (17, K_ROOT_RUNNABLE)].
+Proof. vm_compute. repeat split; reflexivity. Qed.
 
 Example C19_example_zero :
   serve_rc false (mk_ru 0 false 0 0 0 0 0) = 0 /\ serve_rc true (mk_ru 0 false 0 0 0 0 0) = rc_FAILED /\
